@@ -93,6 +93,13 @@ class Stats:
         self.known = known_keys(cid)
         self.ignore_keys: set = set()
         self.exhaustive = None
+        # shrink budget: after the first failure of a round the shrinker gets
+        # this many seconds; afterwards every execution passes immediately so
+        # Hypothesis stops, and the smallest failure seen so far is reported.
+        self.shrink_budget = float(os.environ.get("PAV_SHRINK_BUDGET", "12"))
+        self.first_fail_t = None
+        self.best = None
+        self.bail = False
 
     def case(self, canonical, nontrivial: bool, classes=(), sample=None) -> None:
         self.evaluations += 1
@@ -120,17 +127,43 @@ class Stats:
         return r
 
     # -- violation routing -------------------------------------------------
+    def new_round(self) -> None:
+        self.first_fail_t = None
+        self.best = None
+        self.bail = False
+
+    def note_failure(self, v: "Violation") -> None:
+        import json
+        import time
+        size = len(json.dumps(v.case, default=repr))
+        if self.best is None or size <= self.best[0]:
+            self.best = (size, v)
+        now = time.monotonic()
+        if self.first_fail_t is None:
+            self.first_fail_t = now
+        elif now - self.first_fail_t > self.shrink_budget:
+            self.bail = True
+
+    def filter(self, v: "Violation") -> bool:
+        """True if the violation must be raised (not known, not already found)."""
+        if v.key in self.known:
+            self.known_hits[v.key] += 1
+            return False
+        if v.key in self.ignore_keys:
+            return False
+        self.note_failure(v)
+        return True
+
     def guard(self, fn, *a, **k):
         """Run fn; swallow violations that are known findings or already found."""
+        if self.bail:
+            return None
         try:
             return fn(*a, **k)
         except Violation as v:
-            if v.key in self.known:
-                self.known_hits[v.key] += 1
-                return None
-            if v.key in self.ignore_keys:
-                return None
-            raise
+            if self.filter(v):
+                raise
+            return None
 
 
 def hyp_settings(max_examples: int, *, shrink: bool = True, stateful_step_count: int | None = None):
@@ -176,20 +209,24 @@ def drive(stats: Stats, make_test, seed: int, rounds: int = 3) -> None:
     """
     for r in range(rounds):
         test = make_test(seed + r * 7919)
+        stats.new_round()
         try:
             test()
-            return
-        except Violation as v:
-            stats.violations.append(v.as_dict())
-            stats.ignore_keys.add(v.key)
+            if stats.best is None:
+                return
+            v = stats.best[1]
         except hypothesis.errors.FailedHealthCheck:
             raise
         except BaseException as exc:  # noqa: BLE001
-            v = _extract_violation(exc)
-            if v is None:
-                raise
-            stats.violations.append(v.as_dict())
-            stats.ignore_keys.add(v.key)
+            if stats.best is not None:
+                v = stats.best[1]
+            else:
+                v = _extract_violation(exc)
+                if v is None:
+                    raise
+        stats.violations.append(v.as_dict())
+        stats.ignore_keys.add(v.key)
+    stats.new_round()
 
 
 def given_test(strategy, body, seed: int, max_examples: int, shrink: bool = True):
